@@ -183,6 +183,26 @@ func checkC20(c *Ctx) {
 	})
 	c.expect("walker.case-uses-children", 10)
 	_ = n
+	// expression kinds whose operands are evaluated in the scope of the
+	// conjunct and are not resolved "as a whole": an index or a slice bound
+	// may be a reference of its own (`l[x]`, `l[x:]`), which must keep the
+	// declaration of x alive. They need a case (failing packages: see
+	// known_findings.json / DESIGN §0.4).
+	{
+		wf := c.fn("tools/trim", "(*trimmerV3).resolveElemAll")
+		elemT := c.lookupType(adtP + ".Elem")
+		cases, _, _ := switchCases(wf.Info(), wf.Body, func(t types.Type) bool { return types.Identical(t, elemT.Type()) })
+		for _, kind := range []string{"IndexExpr", "SliceExpr"} {
+			has := false
+			for _, tn := range implementors(c.pkg(adtP), elemT.Type().Underlying().(*types.Interface)) {
+				if tn.Name() == kind && covered(tn, cases) {
+					has = true
+				}
+			}
+			c.check("walker.index-and-slice-operands-traversed", "resolveElemAll/"+kind, wf.Decl.Pos(), has,
+				"resolveElemAll needs a case for *adt."+kind+" that pushes its operand expressions: a reference used as an index or slice bound (`l[x]`, `l[x:]`) must keep the referenced declaration, or the trimmed package no longer evaluates")
+		}
+	}
 	// clause kinds handled by the two clause switches must contribute their expression
 	for _, fn := range []string{"(*trimmerV3).resolveElemAll", "(*trimmerV3).linkStructComprehension"} {
 		wf := c.fn("tools/trim", fn)
